@@ -26,7 +26,7 @@ from vf.iodoubles import (RET, EOF, ERR, WOULDBLOCK, FakeSocket, Loop, clock, it
 
 LEVEL = "exploration"
 BOUND = 10
-RULE = ("loopback: kind in {Client, Patron, TcpClientStack} x reconnectable or not x timeout in {0.5, 1, 2} x server "
+RULE = ("loopback: kind in {Client, Patron, Patron on a server-sent event stream with a retry field, TcpClientStack} x reconnectable or not x timeout in {0.5, 1, 2} x server "
         "initially up or down x a generated schedule of 2..7 events from {server down, server up, drop the connection "
         "with FIN, with RST, advance virtual time by a fraction or multiple of the timeout, 1..3 service rounds}, then "
         "server up and service rounds at (timeout - 1/8), timeout and (timeout + 1/8) after the last loss, then at most "
@@ -61,11 +61,15 @@ class Subject(object):
         if kind == "Client":
             if opened:
                 self.cl.reopen()
-        elif kind == "Patron":
+        elif kind in ("Patron", "PatronEvented"):
             from ioflo.aio.http import clienting as hclienting
             self.obj = hclienting.Patron(connector=self.cl, store=clk)
             if opened:
                 self.obj.open()
+            if kind == "PatronEvented":
+                # an HTTP client on a server-sent event stream: the stream's `retry:` field (milliseconds) becomes the
+                # reconnect delay after the first reconnect; it is kept at or below the connector's timeout here
+                self.obj.request(method="GET", path="/stream")
         else:
             from ioflo.aio.proto import stacking
             self.obj = stacking.TcpClientStack(handler=self.cl, stamper=clk, ha=ha, name="cstack")
@@ -104,6 +108,9 @@ class World(object):
         if not up0:
             self.down()
         self.sub = Subject(kind, self.ha, self.clk, timeout, reconnectable, opened)
+        self.kind = kind
+        self.retry_ms = int(timeout * 1000) // 4 if kind == "PatronEvented" else None
+        self.streams = 0
         self.t_loss = 0.0 if not up0 else None      # virtual instant of the last loss / refusal cause
         self.lost = not up0
         self.port_taken = False
@@ -132,6 +139,14 @@ class World(object):
         for ca, ix in list(self.srv.ixes.items()):
             if ix.cutoff:
                 self.srv.removeIx(ca)
+            elif self.kind == "PatronEvented" and b"\r\n\r\n" in ix.rxbs:
+                # the request for the stream: answer with an event stream that names a retry delay and an event id
+                del ix.rxbs[:]
+                self.streams += 1
+                ix.tx(b"HTTP/1.1 200 OK\r\nContent-Type: text/event-stream\r\n\r\nretry: %d\n\nid: %d\ndata: tick\n\n"
+                      % (self.retry_ms, self.streams))
+        if self.kind == "PatronEvented":
+            self.srv.serviceTxesAllIx()
 
     def entry(self):
         cl = self.sub.cl
@@ -189,12 +204,17 @@ def gen_schedule(rng, T):
 
 
 def loopback_case(ctx, rng, idx):
-    kind = rng.choice(("Client", "Patron", "TcpClientStack"))
+    kind = rng.choice(("Client", "Patron", "TcpClientStack", "Client", "Patron", "TcpClientStack", "PatronEvented"))
     T = rng.choice((0.5, 1.0, 2.0))
     rc = rng.random() < 0.8
     up0 = rng.random() < 0.6
     opened = rng.random() < 0.5
     sched = gen_schedule(rng, T)
+    if kind == "PatronEvented" and rng.random() < 0.7:
+        # the stream is established, lost, resumed (the retry delay of the stream is in force from here on) and lost again
+        drop = lambda: (rng.choice(("fin", "rst")),)
+        sched = [("up",), ("rounds", 3), drop(), ("rounds", 2), ("adv", T + EPS), ("rounds", 3), drop(), ("rounds", rng.randint(1, 2))] \
+            + sched[:rng.randint(0, 3)]
     # virtual time between two service rounds of the final phase: none, a fraction of the timeout, or not below it
     step = rng.choice((0.0, 0.0, T / 8, T / 2, T, 2 * T))
     params = {"kind": kind, "timeout": T, "reconnectable": rc, "server_initially_up": up0, "opened_first": opened,
@@ -287,6 +307,10 @@ def loopback_case(ctx, rng, idx):
                     if loop.pace:
                         loop._time.sleep(loop.pace)
                     loop.watchdog()
+            if kind == "PatronEvented" and W.streams:
+                ctx.hit("event_streams_started", W.streams)
+                if W.streams >= 2:
+                    ctx.hit("event_stream_resumed_after_reconnect")
             if rc:
                 key = "%s/not-connected-within-bound" % kind
                 if kind == "Client" and state["established_loss"] and used is None:
@@ -479,3 +503,5 @@ def run(ctx):
     ctx.floor("drops_rst", ctx.pick(35, 800))
     ctx.floor("double_cases", ctx.pick(1500, 9000))
     ctx.floor("distinct_nontrivial", ctx.pick(1500, 15000))
+    ctx.floor("reconnect_after_loss_PatronEvented", ctx.pick(15, 300))
+    ctx.floor("event_stream_resumed_after_reconnect", ctx.pick(10, 200))
